@@ -586,6 +586,7 @@ class _ClientGen:
         self.rng, self.prop, self.cls = rng, prop, cls
         self.mols, self.strs, self.bad_mols, self.files = mols, strs, bad_mols, files
         self.rewrites = rewrites or {}  # private path -> list of text ids that may be written to it
+        self.valid_strs = set()  # ids of strings expected to be accepted
         self.multi = multi
         self.ops = []
         self.live = {"graph": [], "canon": [], "string": [], "moltext": []}
@@ -609,6 +610,8 @@ class _ClientGen:
                 cap = STEP_CAP[kind] * (1 if self.rng.random() < 0.7 else 3)
                 k = _loguniform(self.rng, 1, cap) if self.rng.random() < 0.5 else self.rng.randint(1, cap)
                 op["abort"] = {"step": k}
+            if self.rng.random() < 0.25:
+                op["abort"]["exc"] = "MemoryError"  # an ordinary Exception instead of a BaseException
         if self.faulty and kind == "read_file" and self.rng.random() < 0.35:
             at = self.rng.choice(["open", "open", "read", "short"])
             op["io_fault"] = {"at": at, "err": self.rng.choice(["ENOENT", "EACCES", "EIO", "EMFILE"]), "frac": self.rng.random()}
@@ -642,12 +645,15 @@ class _ClientGen:
                     self._add({"op": "fs_write", "path": path, "text": r.choice(self.rewrites[path])})
                 return self._add({"op": "read_file", "path": path}, "graph")
             return self._add({"op": "read_file", "path": r.choice(self.files)}, "graph")
+        # results of inputs that are expected to be rejected rarely become arguments
+        # of later ops (those would only be skipped)
         if u < 0.56 and self.bad_mols:
-            return self._add({"op": "read", "text": r.choice(self.bad_mols)}, "graph")
+            return self._add({"op": "read", "text": r.choice(self.bad_mols)}, "graph" if r.random() < 0.1 else None)
         if u < 0.60:
-            return self._add({"op": "read_file", "path": r.choice(["/sim/none.mol", "/sim/x.sdf", "/sim/noext"])}, "graph")
+            return self._add({"op": "read_file", "path": r.choice(["/sim/none.mol", "/sim/x.sdf", "/sim/noext"])}, None)
         if self.strs:
-            return self._add({"op": "parse", "text": r.choice(self.strs)}, "graph")
+            t = r.choice(self.strs)
+            return self._add({"op": "parse", "text": t}, "graph" if (t in self.valid_strs or r.random() < 0.1) else None)
         return self._add({"op": "read", "text": r.choice(self.mols)}, "graph")
 
     def step(self):
@@ -796,6 +802,7 @@ def gen_spec(run_seed, prop, pool, hashseeds, knobs=None):
                 if pool.redrawn.get(m):
                     rewrites[path].append(pool.redrawn[m])
         cg = _ClientGen(own_rng, prop, cls, mols, strs, bad, fpaths, multi, rewrites)
+        cg.valid_strs = set(valid_strs)
         while len(cg.ops) < nops:
             cg.step()
         return cg.ops
@@ -823,6 +830,7 @@ def gen_spec(run_seed, prop, pool, hashseeds, knobs=None):
     warm = []
     if nw:
         wc = _ClientGen(Random(H(run_seed, "warm")), "C14", "A", rng.sample(pool.mol_valid, min(4, len(pool.mol_valid))), [rng.choice(all_strs) for _ in range(6)] if all_strs else [], bad, [], False)
+        wc.valid_strs = set(valid_strs)
         while len(wc.ops) < nw:
             wc.step()
         warm = wc.ops
